@@ -538,6 +538,22 @@ func runC18(c *ctx) {
 			if r.chance(30) {
 				anys = append(anys, anyListenerRDS("some-other-listener", "x"))
 			}
+			if r.chance(25) {
+				// first a response that is REJECTED as a whole: a well-formed inbound listener with another bucket next to
+				// a listener that does not decode. A rejected response changes nothing, the limit least of all
+				bad := []*anypb.Any{inboundListener([]gChain{{Port: 0, Kind: "inline", Bucket: 4242}, {Port: port, Kind: "inline", Bucket: 4343}}),
+					{TypeUrl: xdsresource.ListenerTypeURL, Value: []byte{0x0a, 0xff, 0xff, 0xff, 0xff, 0x0f, 0x01}}}
+				if r.bool() {
+					bad[0], bad[1] = bad[1], bad[0]
+				}
+				w.push(mkResp(xdsresource.ListenerTypeURL, fmt.Sprintf("bad%d", u+1), fmt.Sprintf("nb%d", u+1), bad))
+				ro := obj{"pushed": append([]interface{}{}, upd.got...)}
+				if lo != nil {
+					ro["limit"] = limitJSON(lo)
+				}
+				events = append(events, obj{"e": "rejected", "obs": ro})
+				c.count("rejected-responses", 1)
+			}
 			w.push(mkResp(xdsresource.ListenerTypeURL, verStr(r, u), fmt.Sprintf("n%d", u+1), anys))
 			o := obj{"pushed": append([]interface{}{}, upd.got...)}
 			if lo != nil {
